@@ -127,6 +127,7 @@ THEOREMS = [
     "OllamaVerif.Tie.C13.colon_only_in_hosts",
     "OllamaVerif.Tie.C13.no_odd_strings",
     "OllamaVerif.Tie.C13.n1_variant_is_repaired",
+    "OllamaVerif.Tie.C13.constants_match",
 ]
 
 OV_MODEL = {"types/model/zz_verif_c13_test.go": "types_model/zz_verif_c13_test.go"}
@@ -163,8 +164,8 @@ def regenerate(ctx):
             continue
         for line in open(outdir + "/table.txt"):
             f = line.split()
-            if f[2] == "odd":
-                rows[(f[0], int(f[1]), "odd")] = f[3:]
+            if f[2] in ("odd", "consthex"):
+                rows[(f[0], int(f[1]), f[2])] = f[3:]
             else:
                 rows[(f[0], int(f[1]), f[2])] = [int(x) for x in f[3:]]
     if not ok:
@@ -192,6 +193,9 @@ def regenerate(ctx):
         body.append(f"def odd{pk} : List (Nat × List (List Nat)) := [" + ", ".join(
             "({}, [{}])".format(k, ", ".join(lst(list(bytes.fromhex(h))) for h in rows.get((pk, k, 'odd'), [])))
             for k in range(kinds)) + "]")
+    body.append("/-- constants of the real code: types/model DefaultName() host / namespace / tag and MissingPart (bytes); names.MaxNameLength -/")
+    body.append("def constM : List (List Nat) := [" + ", ".join(lst(list(bytes.fromhex(h))) for h in rows[("M", 0, "consthex")]) + "]")
+    body.append(f"def maxNameLengthN : Nat := {rows[('N', 0, 'maxname')][0]}")
     body.append("/-- finding N1 on the real code: `names.Parse(w).IsValid()` for w = h//m, h//m:t, h:80//m -/")
     body.append("def n1Probe : List Bool := [" + ", ".join("true" if x else "false" for x in rows[("N", 0, "n1probe")]) + "]")
     body.append("end OllamaVerif.Generated.C13")
